@@ -23,6 +23,14 @@ func gen(g *vh.Gen) {
 func genAll(g *vh.Gen) {
 	gen(g)
 	sd.GenCollide(g)
+	// arrival order is not id order: a mailbox whose deliveries straddle the wrap of the id counter
+	// within one second (planted, see sd/wrap.go); listing, "latest", get/seen/remove by handle
+	for i := 0; i < g.N(12, 200); i++ {
+		p := 3 + g.Intn(4)
+		tail := []string{"l0", "g0:l", "g0:k0", "g0:k" + vh.I(p-1), "s0:k2", "l0", "r0:k" + vh.I(g.Intn(p)), "l0", "g0:l",
+			"a0:1600001000:200", "l0", "g0:l", "a1:1600001001:200", "v", "r0:k0", "l0", "p0", "l0", "g0:l"}
+		sd.EmitHistory(g, []string{"file"}, "direct@wrap"+vh.I(p), 0, 0, []string{"wrapbox", "other"}, sd.WrapHistory(g, p, tail))
+	}
 }
 
 func exec(kind string, in []string) []string {
